@@ -192,7 +192,9 @@ class _Simu(_IObserver, _params.Updatable, ABC):
         Parameters
         ----------
         A : sparse.csr_matrix
-            Operator of the energy, e.g. `K` for the strain energy or `M` for the kinetic one.
+            Operator of the energy, e.g. `K` for the strain energy or `M` for the kinetic one. The matrices
+            of :meth:`Get_K_C_M_F` also hold the rows and columns of the Lagrange conditions, which `x` does
+            not: only the `x.size` first columns are used.
         x : _types.FloatArray
             Dof vector, of the full `(Ndof,)` length on every rank as the solver leaves it.
         dofs : _types.IntArray, optional
@@ -208,7 +210,7 @@ class _Simu(_IObserver, _params.Updatable, ABC):
         if dofs is None:
             dofs = self.Get_dofs()
 
-        return Reduce_sum(0.5 * x[dofs] @ (A[dofs] @ x))
+        return Reduce_sum(0.5 * x[dofs] @ (A[dofs, : x.size] @ x))
 
     def Calc_Reaction(
         self, dofs: _types.IntArray = None, problemType: ProblemType = None
